@@ -388,6 +388,36 @@ def run(ctx):
                     if xvals[i] != float(F['xs'][g]) and not f11_sig:
                         bad = 'row %d (frame %d): X %r, true X %r' % (i, g, xvals[i], F['xs'][g])
                         break
+                    # the same values through the accessors: by (channel, sample, burst) - LIS-79 order: bursts fastest -
+                    # and as the channel's value vector
+                    if i in (0, len(sel) - 1) or (i + fi) % 3 == 0:
+                        for c_ in want:
+                            ch_ = F['chans'][c_]
+                            ns, nb_ = ch_['samples'], ch_['nvals'] // ch_['samples']
+                            rec_ = F['cells'][g][c_]
+                            try:
+                                if fs.numSamples(c_, 0) != ns or fs.numBursts(c_, 0) != nb_:
+                                    bad = 'channel %d: %d samples x %d bursts reported, recorded %d x %d' % (c_, fs.numSamples(c_, 0), fs.numBursts(c_, 0), ns, nb_)
+                                    break
+                                for sa_ in range(ns):
+                                    for bu_ in range(nb_):
+                                        v_ = float(fs.value(i, c_, 0, sa_, bu_))
+                                        if v_ != float(rec_[sa_ * nb_ + bu_]):
+                                            bad = 'row %d (frame %d) channel %d sample %d burst %d: value() gives %r, recorded %r' % (
+                                                i, g, c_, sa_, bu_, v_, rec_[sa_ * nb_ + bu_])
+                                            break
+                                    if bad:
+                                        break
+                                if not bad:
+                                    vec = [float(v) for v in fs.frame_channel_sub_channel_values(i, c_, 0)]
+                                    if vec != [float(v) for v in rec_]:
+                                        bad = 'row %d (frame %d) channel %d: values %r, recorded %r' % (i, g, c_, vec[:8], rec_[:8])
+                            except Exception as e:
+                                bad = 'row %d channel %d: accessor raised %s: %s' % (i, c_, type(e).__name__, e)
+                            if bad:
+                                break
+                        if bad:
+                            break
                 if not bad and f11_sig:
                     # emulate the defect exactly
                     emu = f11_emulate(F['pattern'], F['x0'], F['dx'], sel)
